@@ -1107,8 +1107,20 @@ func (p *partition) handleReplicationResponse(msg *nats.Msg) int {
 	}
 	p.mu.RUnlock()
 
-	// Update HW from leader's HW.
-	p.log.SetHighWatermark(hw)
+	// Update HW from leader's HW. The leader may have committed more than this
+	// replica holds so far (it is catching up). The HW of a log must not lie
+	// beyond the log's end, otherwise readers of committed data on this
+	// replica look for a position that does not exist (and are not woken when
+	// the data arrives), so adopt the leader's HW only as far as the log
+	// reaches, now and again after appending.
+	adoptHW := func() {
+		if newest := p.log.NewestOffset(); hw > newest {
+			p.log.SetHighWatermark(newest)
+		} else {
+			p.log.SetHighWatermark(hw)
+		}
+	}
+	adoptHW()
 
 	if len(data) == 0 {
 		return 0
@@ -1127,6 +1139,7 @@ func (p *partition) handleReplicationResponse(msg *nats.Msg) int {
 	if err != nil {
 		panic(fmt.Errorf("Failed to replicate data to log %s: %v", p, err))
 	}
+	adoptHW()
 	return len(offsets)
 }
 
